@@ -29,6 +29,15 @@ pub fn scan_sidecar_backwards(_f: &mut File, id: &str, _n: usize, _b: usize, _m:
     Ok(Parsed { events: SIDECAR.with(|s| s.borrow().iter().rev().filter(|e| e.session_id == id && matches!(e.kind, EventKind::ContinuityCompactionCheckpointCreated { .. })).cloned().collect()) })
 }
 // mode 0: every cache absent (truth-log paths); mode 1: caches present and faithful to the appended frames
+pub struct ContinuityWindow { pub events: Vec<Event>, pub from_seq: u64, pub from_message_id: Option<String> }
+// the checkpoint index as the cache builds it from the sidecar: one entry per checkpoint frame, in stream order
+#[derive(Debug, Clone, Default)]
+pub struct CompactionCheckpointIndexEntryV1 { pub seq: u64, pub to_seq: u64, pub checkpoint_id: String, pub cut_rule_id: String, pub summary_kind: String, pub summary_artifact_id: String }
+pub fn load_compaction_checkpoint_index_v1(p: &PathBuf) -> io::Result<Option<Vec<CompactionCheckpointIndexEntryV1>>> {
+    let id = p.to_string_lossy().to_string();
+    Ok(Some(SIDECAR.with(|s| s.borrow().iter().filter(|e| e.session_id == id).filter_map(|e| match &e.kind { EventKind::ContinuityCompactionCheckpointCreated { checkpoint_id, cut_rule_id, summary_kind, summary_artifact_id, to_seq, .. } => Some(CompactionCheckpointIndexEntryV1 { seq: e.seq, to_seq: *to_seq, checkpoint_id: checkpoint_id.clone(), cut_rule_id: cut_rule_id.clone(), summary_kind: summary_kind.clone(), summary_artifact_id: summary_artifact_id.clone() }), _ => None }).collect())))
+}
+pub fn rebuild_compaction_checkpoint_index_from_sidecar_v1(_a: &PathBuf, _b: &PathBuf, _id: &str) -> io::Result<()> { Ok(()) }
 // window: Some(k) = the tail scan never sees more than the newest k frames and reports the tail as incomplete unless it holds them all
 pub struct ContinuityStreamCache { pub mode: u8, pub window: Option<usize> }
 thread_local! { static SCANS: RefCell<u64> = RefCell::new(0); }
@@ -48,6 +57,20 @@ impl ContinuityStreamCache {
         let k = all.len().saturating_sub(max_events.min(self.window.unwrap_or(usize::MAX)));
         Ok(Some(TailScan { events: all[k..].to_vec(), complete: k == 0 }))
     }
+    // messages+runs sidecar tail: same window rule as scan_tail, over message / run frames only
+    pub fn scan_tail_messages_runs_v1(&self, id: &str, max_events: usize, _b: usize) -> io::Result<Option<TailScan>> {
+        if self.mode == 0 { return Ok(None); }
+        let n = SCANS.with(|c| { *c.borrow_mut() += 1; *c.borrow() });
+        if n > 200 { panic!("the messages+runs tail was scanned more than 200 times by one read call: the tail-window loop does not terminate"); }
+        let all: Vec<Event> = SIDECAR.with(|s| s.borrow().iter().filter(|e| e.session_id == id && matches!(e.kind, EventKind::ContinuityMessageAppended { .. } | EventKind::ContinuityRunSpawned { .. } | EventKind::ContinuityRunEnded { .. })).cloned().collect());
+        let k = all.len().saturating_sub(max_events.min(self.window.unwrap_or(usize::MAX)));
+        Ok(Some(TailScan { events: all[k..].to_vec(), complete: k == 0 }))
+    }
+    // the seekable window read is not modelled: absent, so the caller goes on to its truth-log fallback
+    pub fn window_recent_messages_v1_from_message_id(&self, _id: &str, _anchor: &str, _limit: usize) -> io::Result<Option<ContinuityWindow>> { Ok(None) }
+    pub fn ensure_compaction_checkpoints_index_best_effort_v1(&self, id: &str) -> io::Result<Option<PathBuf>> { if self.mode == 0 { Ok(None) } else { Ok(Some(PathBuf::from(id))) } }
+    //@@ fn crates/ripd/src/continuity_stream_cache.rs ContinuityStreamCache::hierarchical_compaction_checkpoints_before_or_at_seq_v1
+    //@@ end
     pub fn ensure_compaction_checkpoints_sidecar_best_effort_v1(&self, _id: &str) -> io::Result<Option<PathBuf>> { if self.mode == 0 { Ok(None) } else { Ok(Some(PathBuf::from("sidecar"))) } }
     //@@ fn crates/ripd/src/continuity_stream_cache.rs ContinuityStreamCache::latest_compaction_checkpoint_before_or_at_seq_v1
     //@@ end
